@@ -98,10 +98,11 @@ def cmd_run(cid, tier):
     agg = chk.aggregate(batches, tier, seed, t0)
     rc = 0
     nviol = 0
+    unreproduced = []
     for kid, n in sorted(agg["known_hits"].items()):
         k = [x for x in agg["known"]["findings"] if x["id"] == kid][0]
         print(f"KNOWN-FINDING: property={chk.PROP} {kid}: {k['what']} (hit {n}x)")
-    for v in agg["violations"][:6]:
+    for v in agg["violations"][:4]:
         key, hs, idx, f, count = v
         print(f"[{chk.PROP}] new violation signature {key} first at run {idx} (hashseed {hs}), {count} instance(s); minimising...", flush=True)
         try:
@@ -115,17 +116,22 @@ def cmd_run(cid, tier):
             ok, out = engine.replay_in_fresh_interpreter(path)
         except Exception as e:
             print(f"HARNESS-ERROR: minimisation/replay failed for {key}: {type(e).__name__}: {e}")
-            rc = max(rc, 2)
+            rc = 2
             continue
         if ok:
             print(f"VIOLATION property={chk.PROP} replay={path}")
             nviol += 1
-            rc = 1 if rc != 2 else rc
         else:
-            print(f"HARNESS-ERROR: violation {key} did not reproduce from {path} in a fresh interpreter:\n{out[-800:]}")
-            rc = 2
-    if len(agg["violations"]) > 6:
-        print(f"[{chk.PROP}] {len(agg['violations']) - 6} further violation signatures not minimised")
+            unreproduced.append(key)
+            print(f"UNREPRODUCED: {key} was observed in the batch but its minimised replay {path} did not fail the same way in a "
+                  f"fresh interpreter (address- or entropy-dependent behaviour?); not reported as a violation:\n{out[-600:]}")
+    if len(agg["violations"]) > 4:
+        print(f"[{chk.PROP}] {len(agg['violations']) - 4} further violation signatures not minimised")
+    if nviol:
+        rc = 1 if rc != 2 else rc
+    elif unreproduced:
+        print(f"HARNESS-ERROR: {len(unreproduced)} violation signature(s) observed but none reproduced from its replay file")
+        rc = 2
     if agg["harness_errors"]:
         e = agg["harness_errors"][0]
         print(f"HARNESS-ERROR: {len(agg['harness_errors'])} run(s) failed inside the harness, e.g.: {e.get('__harness_error__')}\n{e.get('tb','')[-1500:]}")
